@@ -150,6 +150,19 @@ theorem seq_noPanic_of_next {α σ ρ : Type} (xs : List α) (s : σ) (body : α
   rw [hs, Ctl.seq_next, hr]
   simp [Ctl.toRes]
 
+/-- Outcome of one iteration of a loop whose body threads a state and may `return`. -/
+inductive LoopR (σ ρ : Type) where
+  | next (s : σ)
+  | ret (r : ρ) (s : σ)
+
+/-- `for _, x := range xs { body }` over a threaded state, with early `return` (target of the checker.go translation) -/
+def forM : List α → σ → (α → σ → LoopR σ ρ) → LoopR σ ρ
+  | [], s, _ => .next s
+  | x :: xs, s, body =>
+    match body x s with
+    | .next s' => forM xs s' body
+    | .ret r s' => .ret r s'
+
 /-- Dereference of a Go pointer modelled as `Option`; only used after a nil guard. -/
 @[inline] def deref [Inhabited α] (p : Option α) : α := p.getD default
 
